@@ -313,7 +313,15 @@ func Check(c Case) *vfrun.Failure {
 				}
 			}
 		}
-		plainRef := kit.Reference(s, pr, p)
+		// the reference for "what nulled this object": null propagation from a failure inside a
+		// deferred group stops at the group's object, whether or not that payload could be applied
+		stopAll := map[string]bool{}
+		for _, pl := range r.out[1:] {
+			if d, perr := strictjson.Parse(pl.Data); perr == nil && d.Kind == strictjson.Null {
+				stopAll[pl.Path.String()] = true
+			}
+		}
+		plainRef := kit.ReferenceStop(s, pr, p, stopAll)
 		for _, q := range queue {
 			// a group must never be started for an object that one of its own eager (non-deferred)
 			// non-null fields nulled: that is not the known finding
